@@ -17,11 +17,12 @@ import (
 	"github.com/saucelabs/forwarder"
 	"github.com/saucelabs/forwarder/header"
 	"github.com/saucelabs/forwarder/verifharness/core"
+	"github.com/saucelabs/forwarder/verifharness/srcgen"
 	"github.com/saucelabs/forwarder/verifharness/reqmodel"
 	"github.com/saucelabs/forwarder/verifharness/rig"
 )
 
-func init() { core.Register("C01", core.Scenario{Run: Run, Replay: Replay}) }
+func init() { core.Register("C01", core.Scenario{Run: Run, Replay: Replay, Prepare: srcgen.PrepareC01}) }
 
 // connCase is one client connection with 1-4 requests.
 type connCase struct {
